@@ -220,7 +220,8 @@ class C15(object):
                 # motor positions as the data files hold them: float64, float32, or whole numbers stored as integers
                 "motor_dtype": rnd.choice(["float64", "float64", "float32", "int64"]),
                 # the overlap matrix is dumped to a file between labelling and merging
-                "dump_between": rnd.random() < 0.2}
+                "dump_between": rnd.random() < 0.2,
+                "relabel_edges": ([[rnd.randrange(n), rnd.randrange(n)] for _ in range(rnd.randint(1, 3))] if rnd.random() < 0.2 else None)}
 
     def describe(self, desc):
         return {k: desc[k] for k in ("n", "kind", "edges", "T", "chunking", "strategy", "p_inv", "sseed")}
@@ -393,6 +394,12 @@ class C15(object):
                                        tab.pk2dmerge(om, dy, scale_factor=sfk)))     # kept as returned, looked at after the last call
             res["merged"] = {k: np.array(v) for k, v in tab.pk2dmerge(om, dy, scale_factor=sf).items()}
             res["pk2d"] = {k: np.array(v) for k, v in tab.pk2d(om, dy, scale_factor=sf).items()}
+            if desc.get("relabel_edges"):
+                # more overlaps arrive (rows come in batches): the same table is labelled again for the larger graph
+                E2 = list(E) + [tuple(e) for e in desc["relabel_edges"]]
+                tab.rc = np.array([[a for a, b in E2], [b for a, b in E2], [1] * len(E2)], idt).reshape(3, len(E2))
+                nl2, lab2 = tab.find_uniq()
+                res["relabel"] = (int(nl2), np.array(lab2), E2)
 
         try:
             for nm in self.sim_fns:
@@ -413,6 +420,14 @@ class C15(object):
             for nm, o in saved.items():
                 setattr(props, nm, o)
             props.numba = saved_numba
+        if viol is None and res.get("relabel"):
+            nl2, lab2, E2 = res["relabel"]
+            want2, nc2 = components(n, [a for a, b in E2], [b for a, b in E2])
+            m_, m2_ = {}, {}
+            if nl2 != nc2 or [m_.setdefault(int(x), len(m_)) for x in lab2] != [m2_.setdefault(int(x), len(m2_)) for x in want2] or \
+                    sorted(set(lab2.tolist())) != list(range(nc2)):
+                viol = V("partition-differs", "the table labelled again after %d more overlaps arrived: %d labels, the graph now has %d "
+                                              "components (or another partition)" % (len(E2) - len(E), nl2, nc2))
         if viol is None and res.get("dump_changed_labels"):
             viol = V("labels-not-0..n-1", "find_uniq(outputfile=...) on a table that was already labelled changed or dropped its labels")
         sweeps = self.state["calls"].get("numbalabelNd", 0)
